@@ -149,6 +149,9 @@ def concretise_c06(st, seed, iid):
     xs = np.zeros(n)
     gamma = np.zeros(n)
     lo = hi = None
+    strong = st.get("special") == "strong_regulariser"
+    if strong:
+        lam = float(rng.choice([1e3, 1e4, 1e4])) * nA2
     if st["reg"] == "l1":
         if st["bounded"]:
             lo, hi = np.zeros(n), np.zeros(n)
@@ -158,7 +161,7 @@ def concretise_c06(st, seed, iid):
             elif s == "neg":
                 xs[i], gamma[i] = -rng.uniform(0.5, 2.0), lam
             elif s == "zero_strict":
-                xs[i], gamma[i] = 0.0, rng.uniform(-0.5, 0.5) * lam
+                xs[i], gamma[i] = 0.0, rng.uniform(-0.5, 0.5) * (nA2 if strong else lam)     # strong: data of ordinary size, |A'r| << lambda
             elif s == "zero_kink":
                 xs[i], gamma[i] = 0.0, float(rng.choice([-1.0, 1.0])) * lam
             elif s == "atL":
@@ -239,7 +242,8 @@ def run_prop(prop, tier, nquick, nthorough, concretise, maxn):
         k = max(4, want // 12)
         for kind in kinds:          # every special class is represented, however many patterns it has
             spec = [s for s in states if s.get("special", "none") == kind]
-            sel += [spec[int(i)] for i in rng.choice(len(spec), size=min(k, len(spec)), replace=False)]
+            kk = 3 * k if kind == "strong_regulariser" else k      # the outcome depends on the data (about a third of the instances are sensitive): more of them
+            sel += [spec[int(i)] for i in rng.choice(len(spec), size=min(kk, len(spec)), replace=False)]
     else:
         sel = states
     if prop == "C05":
